@@ -238,6 +238,12 @@ def family_mixed_kinds(names):
         trees.append((lop, ('EQUALS', names[0], 1), names[1]))
         trees.append((lop, names[2], ('GREATER', ('SUM', names[0], names[1]), 3)))
     trees.append(('NOT', ('EQUALS', names[0], 1)))
+    # numeric leaves that are falsy in Python (0, 0.0), negative numbers, the empty string literal
+    for leaf in (0, 0.0, -1, -2.5, "''"):
+        trees.append(('EQUALS', names[0], leaf))
+        trees.append(('GREATER', leaf, names[1]))
+        trees.append(('LOWER_EQUALS', ('ADD', names[0], leaf), ('MUL', leaf, names[1])))
+        trees.append(('IMPLIES', names[2], ('NOT_EQUALS', ('SUM', names[0], names[1]), leaf)))
     return trees
 
 
